@@ -69,6 +69,18 @@ func factsConditions() {
 		{"condPlotGetB", "poc/engine/massdb/massdb.v1", "HashMapB.Get", []string{"target := hm.offset + int(key)*recordSize*2", "hm.data.ReadAt(proof[:recordSize*2], int64(target))", "return proof[:recordSize], proof[recordSize : recordSize*2], nil"}},
 		{"condPlotCheckpoint", "poc/engine/massdb/massdb.v1", "HashMap.UpdateCheckpoint", []string{"binary.LittleEndian.PutUint64(checkpointByte[:], uint64(hm.checkpoint))", "hm.data.WriteAt(checkpointByte[:], PosCheckpoint)"}},
 		{"condPlotGetProof", "poc/engine/massdb/massdb.v1", "MassDBV1.GetProof", []string{"mdb.HashMapB.Get(pocutil.CutHash(challenge, bl))", "poc.VerifyProof(proof, mdb.pubKeyHash, challenge, filter)"}},
+		{"condKeeperStop", cap, "SpaceKeeper.StopWS", []string{"sk.stateLock.Lock()", "defer sk.stateLock.Unlock()", "!ok || !ws.using", "sk.cancelRequests(ws)", "sk.workSpaceIndex[engine.Plotting].Get(sid)", "qws := sk.queue.PoppedItem()",
+			"qws.wouldMining = false", "return ws.StopPlot()", "sk.workSpaceIndex[engine.Mining].Delete(sid)", "sk.workSpaceIndex[engine.Ready].Set(sid, ws)", "ws.state = engine.Ready"}},
+		{"condKeeperRemove", cap, "SpaceKeeper.RemoveWS", []string{"sk.stateLock.Lock()", "!ok || !ws.using", "sk.cancelRequests(ws)", "sk.workSpaceIndex[engine.Registered].Get(sid)", "sk.workSpaceIndex[engine.Ready].Get(sid)", "return ErrWorkSpaceIsNotStill", "sk.disuseWorkSpace(ws)"}},
+		{"condKeeperDelete", cap, "SpaceKeeper.DeleteWS", []string{"sk.stateLock.Lock()", "!ok || !ws.using", "sk.cancelRequests(ws)", "sk.workSpaceIndex[engine.Registered].Get(sid)", "sk.workSpaceIndex[engine.Ready].Get(sid)", "return ErrWorkSpaceIsNotStill",
+			"sk.workSpaceIndex[ws.state].Delete(sid)", "sk.workSpaceIndex[allState].Delete(sid)", "sk.disuseWorkSpace(ws)", "return ws.Delete()"}},
+		{"condKeeperCancel", cap, "SpaceKeeper.cancelRequests", []string{"ws.epoch++", "sk.queue.Delete(ws.id.String())"}},
+		{"condWalletNewKs", "poc/wallet/keystore", "KeystoreManagerForPoC.NewKeystore", []string{"kmc.mu.Lock()", "defer kmc.mu.Unlock()", "len(kmc.managedKeystores) > 0", "addrManager.safelyCheckPassword(privPassphrase)", "return \"\", ErrDifferentPrivPass"}},
+		{"condWalletImport", "poc/wallet/keystore", "KeystoreManagerForPoC.ImportKeystore", []string{"bytes.Compare(newPrivPass, kmc.pubPassphrase) == 0", "len(kmc.managedKeystores) > 0", "addrManager.safelyCheckPassword(newPrivPass)", "ErrDifferentPrivPass"}},
+		{"condWalletNext", "poc/wallet/keystore", "AddrManager.nextAddresses", []string{"nextIndex, err := getChildNum(am, internal)", "numAddresses > MaxAddressesPerAccount || numAddresses+nextIndex > MaxAddressesPerAccount",
+			"branchKey.Child(nextIndex)", "err == hdkeychain.ErrInvalidChild", "Index: nextIndex - 1"}},
+		{"condWalletClear", "poc/wallet/keystore", "AddrManager.clearPrivKeys", []string{"a.unlocked = false", "zero.BigInt(mAddr.privKey.D)", "mAddr.privKey = nil", "a.acctInfo.acctKeyPriv.Zero()", "a.acctInfo.acctKeyPriv = nil",
+			"a.branchInfo.externalBranchPriv = nil", "a.branchInfo.internalBranchPriv = nil", "a.masterKeyPriv.Zero()", "a.cryptoKeyPriv.Zero()", "zero.Bytea64(&a.hashedPrivPassphrase)"}},
 		{"condSnaclMarshal", "poc/wallet/keystore/snacl", "SecretKey.Marshal", []string{"marshalled := make([]byte, KeySize+sha256.Size+24)", "copy(b[:KeySize], params.Salt[:])", "copy(b[:sha256.Size], params.Digest[:])",
 			"binary.LittleEndian.PutUint64(b[:8], uint64(params.N))", "binary.LittleEndian.PutUint64(b[:8], uint64(params.R))", "binary.LittleEndian.PutUint64(b[:8], uint64(params.P))"}},
 		{"condSnaclUnmarshal", "poc/wallet/keystore/snacl", "SecretKey.Unmarshal", []string{"len(marshalled) != KeySize+sha256.Size+24", "return ErrMalformed", "copy(params.Salt[:], marshalled[:KeySize])", "copy(params.Digest[:], marshalled[:sha256.Size])",
